@@ -95,6 +95,18 @@ CHECKS["C11"] = dict(engine="sync-conditions", ref="4 (Engine SYNC, C11)",
          "come back holding the lock even when cancelled; Event.wait returns only after set(), within 3 cycles, and "
          "the event stays set. Exploration level.")
 
+CHECKS["C08"] = dict(engine="sync-checkpoints", ref="4 (Engine SYNC, C08)", level="exploration",
+    technique="deterministic simulation used as observation instrument: complete enumeration of the operation x "
+              "state x scope-configuration x loop-configuration table on the simulated loop, state-reaching "
+              "histories and bystander load seeded",
+    text="Every cell of the finite checkpoint table (50+ operations incl. every anyio.itertools function, 1-3 "
+         "immediately-completable states each, 10 scope configurations, stock/eager) is executed on the simulated loop: "
+         "in an effectively cancelled scope (cancelled, cancelled outer, shielded-and-cancelled, past deadline, "
+         "cancelled group, cancelled before entry) the call must raise the cancellation exception and leave the object "
+         "unchanged; otherwise (incl. inside a shield within a cancelled scope) it must complete and a callback queued "
+         "just before the call must have run before it returns. The table is covered completely on every run "
+         "(exhaustive: true); repetitions vary the bystander load.")
+
 NOT_YET = "check not built yet in this snapshot of /verif (work in progress; see DESIGN.md section 4 for the plan)"
 
 
@@ -119,7 +131,7 @@ def main():
     engines = {}
     for pid, c in CHECKS.items():
         engines.setdefault(c["engine"], []).append(pid)
-    paths = {"sync-permits": "engines/permits.py", "sc": "engines/sc.py", "sync-conditions": "engines/conds.py"}
+    paths = {"sync-permits": "engines/permits.py", "sc": "engines/sc.py", "sync-conditions": "engines/conds.py", "sync-checkpoints": "engines/checkpoints.py"}
     try:
         hooks = [l.split()[0] for l in subprocess.run(
             ["git", "-C", "/repo", "log", "--format=%h %s", "--grep=^hook:"], capture_output=True, text=True
